@@ -294,7 +294,8 @@ def replay_in_range(i, rb):
     if not all(fv.replayable(d) for d in vals.values()):
         return False, "not expressible"
     t = {k: fv.feel_text(d) for k, d in vals.items()}
-    rng = "%s%s..%s%s" % ("[" if i["l_closed"] else "(", t["b"], t["c"], "]" if i["r_closed"] else ")")
+    bare = lambda x: x[1:-1] if x.startswith("(-") and x.endswith(")") else x   # a range endpoint is a simple value: -1, not (-1)
+    rng = "%s%s..%s%s" % ("[" if i["l_closed"] else "(", bare(t["b"]), bare(t["c"]), "]" if i["r_closed"] else ")")
     exprs = ["%s in %s" % (t["a"], rng), "%s %s %s" % (t["b"], "<=" if i["l_closed"] else "<", t["a"]),
              "%s %s %s" % (t["a"], "<=" if i["r_closed"] else "<", t["c"])]
     outs = []
@@ -303,7 +304,8 @@ def replay_in_range(i, rb):
         outs.append((e, tri_text(out)))
     r = [o[1] for o in outs]
     if any(not isinstance(x, int) for x in r):
-        return True, str(outs)
+        # a panic reproduces; a text the parser rejects is a shortcoming of this rendering, not of the repository
+        return any(str(x).startswith("PANIC") for x in r), str(outs)
     conj = 0 if (r[1] == 0 or r[2] == 0) else 1 if (r[1] == 1 and r[2] == 1) else -1
     return r[0] != conj, "; ".join("%s -> %s" % (e, {1: "true", 0: "false", -1: "null"}.get(v, v)) for e, v in outs)
 
